@@ -535,6 +535,7 @@ func (e *khEnv) runPatterns() {
 			names = append(names, name{h, p})
 		}
 	}
+	seenClass := map[string]bool{}
 	m.Each("patterns", len(pats), func(i int64, r *rand.Rand) {
 		pat := pats[i]
 		for _, variant := range []string{pat, kr.HashEntry(mon.Bytes(r, 20), pat)} {
@@ -559,8 +560,22 @@ func (e *khEnv) runPatterns() {
 					m.Count("pattern_pairs_matching", 1)
 				}
 				if g != ms {
-					m.Violation("knownhosts-match:"+patternClass(variant, n.h, n.p), map[string]any{"pattern": variant, "hashed_name": map[bool]string{true: pat, false: ""}[variant != pat],
-						"host": n.h, "port": n.p, "package_matches": g, "model_matches": ms, "file": variant + " " + keyText(e.pool, "ed1")})
+					wit := map[string]any{"pattern": variant, "hashed_name": map[bool]string{true: pat, false: ""}[variant != pat],
+						"host": n.h, "port": n.p, "package_matches": g, "model_matches": ms, "file": variant + " " + keyText(e.pool, "ed1")}
+					key := "knownhosts-match:" + patternClass(variant, n.h, n.p)
+					if !seenClass[key] {
+						// independent witness, once per class: does ssh-keygen -F find the line?
+						seenClass[key] = true
+						path := e.tmp()
+						if os.WriteFile(path, []byte(variant+" "+keyText(e.pool, "ed1")+"\n"), 0o600) == nil {
+							if out, _, err := ext.Run(nil, kgEnv, "ssh-keygen", "-F", kr.Lookup(n.h, n.p), "-f", path); err == nil || out != "" || isExit(err) {
+								found, _ := parseKeygenF(out)
+								wit["ssh-keygen -F "+kr.Lookup(n.h, n.p)+" finds lines"] = fmt.Sprint(found)
+							}
+							os.Remove(path)
+						}
+					}
+					m.Violation(key, wit)
 				}
 			}
 		}
@@ -632,6 +647,11 @@ func (e *khEnv) forced(i int64, r *rand.Rand) (lines []string, qs []*khQuery) {
 			&khQuery{Host: "192.0.2.1", Port: "22", AddrEmpty: true, Remote: ra, KeyName: k, Tag: "remote-only"})
 	}
 	return
+}
+
+func isExit(err error) bool {
+	_, ok := err.(interface{ ExitCode() int })
+	return ok
 }
 
 func indexOf(s []string, x string) int {
